@@ -198,7 +198,7 @@ def design_runs(work, out, names, workers=6):
 # the shared pool: rich worlds x random histories / schedules, validated by several properties' own monitors
 
 # monitors whose antecedents make sense on the pool's worlds (the others are specific to their check's scenario construction)
-POOL_OK = {"DirValid", "HandleContentOK", "Immutable", "DurableFirst", "ReadOnlyFirst", "Mode0444", "NoErr", "PruneOK", "ReadMarks", "FreshOnWrite",
+POOL_OK = {"ReplaceOwn", "ReprieveUnmarks", "DirValid", "HandleContentOK", "Immutable", "DurableFirst", "ReadOnlyFirst", "Mode0444", "NoErr", "PruneOK", "ReadMarks", "FreshOnWrite",
            "SeqMapOK", "OneCopy", "UnexplainedLoss", "SrcConsumed", "ROUntouched", "Confined", "OutsideUntouched", "RemovalOK", "DotFilesUntouched",
            "YoungTempKept", "StaleGone", "HandleModeOK", "PutNeverReplaces", "DebrisConfined", "NoLocks", "TouchMarksFirstOnly", "NoLaterLookups"}
 
@@ -534,6 +534,20 @@ def check_C16(work):
                 prog.append(o)
             jobs.append(seq_job("C16-%s-%s-maint" % (fname, api), "%s:%s:maintenance-pending" % (fname, api), cache, prog, world=w2,
                                 draw=ALWAYS, mkdirs=("SRC", "TMP", "outer")))
+    # the cache directory is named through a symbolic link and "..": the kernel resolves the link first, so outer/link/../W2 with
+    # link -> data/store IS outer/data/W2; everything must happen there and nowhere else
+    for fname, mk in (("plain", lambda d: plain(d, 100000)), ("sharded", lambda d: sharded(d, 2, 100000)),
+                      ("stack", lambda d: stack(plain(d, 100000), [plain("outer/R")], "none", True))):
+        w3 = list(world) + [op("mkdir", path="@TOP@/outer/data/store"), op("symlink", path="@TOP@/outer/link", target="data/store")]
+        cache = mk("outer/link/../W2")
+        prog = []
+        for api in ["set", "put", "get", "touch"] + (["ensure"] if fname == "stack" else []):
+            o = op(api, "good%s" % api)
+            o["hash"], o["sec"] = "1", "2"
+            prog.append(o)
+        real_roots = [root("outer/data/W2", "sharded" if fname == "sharded" else "plain", "w")] + ([root("outer/R", "plain", "ro")] if fname == "stack" else [])
+        jobs.append(seq_job("C16-%s-symlinked-root" % fname, "%s:symlinked-root" % fname, cache, prog, world=w3, draw=ALWAYS,
+                            roots=real_roots, mkdirs=("SRC", "TMP", "outer")))
     mons = ["ConfinedStrict", "RejectedOK", "RejectedNoEffect", "OutsideUntouched", "DirValid"]
 
     def key_of(job, mon, ev, evs):
@@ -579,8 +593,12 @@ def population_ops(d, files, strays=0, dots=(), temps=()):
             ops.append(op("mkfile", path="@TOP@/%s/%s/inner" % (d, name), raw="appdir"))
         else:
             ops.append(op("mkfile", path="@TOP@/%s/%s" % (d, name), raw="appdata", mt_ago=ago, at_ago=ago + 120))
-    for (name, ago, isdir) in temps:
-        if isdir:
+    for t in temps:
+        name, ago, isdir = t[0], t[1], t[2]
+        if len(t) > 3:
+            # a temp file whose access time differs from its modification time (only the modification time counts)
+            ops.append(op("mkfile", path="@TOP@/%s/.kismet_temp/%s" % (d, name), raw="debris", mt_ago=ago, at_ago=t[3]))
+        elif isdir:
             ops.append(op("mkdir", path="@TOP@/%s/.kismet_temp/%s" % (d, name)))
             ops.append(op("utimes", path="@TOP@/%s/.kismet_temp/%s" % (d, name), mt_ago=ago, at_ago=ago))
         else:
@@ -689,6 +707,8 @@ def check_C17(work):
             if k % 2 == 1:
                 dots.append((".x", 4000.0, "ff"))
             temps = [("debris%d" % i, a, False) for i, a in enumerate(ages)] + [("nested", 4000, True), ("future", -7200, False)]
+            # young by modification time, old by access time (a long-running writer; a file staged with atime = mtime - 120 s), and the reverse
+            temps += [("longwriter", 5, False, 7200), ("staged", 3540, False, 3660), ("readlately", 7200, False, 5)]
             world = population_ops("W", files, 1, dots=dots, temps=temps)
             prog = [op("set", "znew%d" % k, "new"), op("put", "zput%d" % k, "new2")]
             jobs.append(seq_job("C17-plain-%d" % k, "plain", plain("W", cap), prog, world=world, draw=ALWAYS))
@@ -867,7 +887,7 @@ def check_C18(work):
         # the faulted participant itself also looks the key up after its operation
         j["stages"][-2]["parts"][0]["prog"] += with_vals([op("get", key, **hs)], 1) if o["api"] in ("set", "put", "set_tf", "put_tf", "ensure", "gou") else []
         jobs.append(j)
-    mons = ["DirValid", "FaultOK", "FollowUpOK", "NoLeak", "HandleContentOK", "ReadsLastSet", "DebrisConfined", "Immutable"]
+    mons = ["DirValid", "FaultOK", "FollowUpOK", "NoLeak", "HandleContentOK", "ReadsLastSet", "DebrisConfined", "Immutable", "PutNeverReplaces"]
 
     def key_of(job, mon, ev, evs):
         inj = (evs[0].get("cfg") or {}).get("inject") or {}
@@ -938,6 +958,14 @@ def check_C03(work):
                 op("set_tf", "a", hash="1", sec="2"), op("ensure", "d", hash="1", sec="2"), op("gou", "e", judge="replace", hash="1", sec="2"),
                 op("get", "a", hash="1", sec="2")]
         jobs.append(seq_job("C03-reused-%s" % wname, "%s:reused-builder" % wname, c, hist, draw=ALWAYS, shard_script=[1, 0] * 10))
+    # values staged on ANOTHER filesystem than the cache (rename / link fail with EXDEV): whatever the library does about it, nothing that
+    # was not flushed may appear under a key name
+    for wname, wr in (("stack", plain("W", 100)), ("stacksh", sharded("W", 2, 100))):
+        c = stack(wr, [plain("R1")], "none")
+        hist = [op(api, "x%d" % i, hash="1", sec="2", srcdir="@XDEV@", chunks=ch)
+                for i, (api, ch) in enumerate([("set", 1), ("put", 2), ("set_tf", 1), ("put_tf", 3), ("set", 3)])]
+        hist += [op("get", "x0", hash="1", sec="2"), op("get", "x3", hash="1", sec="2")]
+        jobs.append(seq_job("C03-xdev-%s" % wname, "%s:cross-device-source" % wname, c, hist, draw=ALWAYS, shard_script=[1, 0] * 10))
     mons = ["DurableFirst", "ReadOnlyFirst", "Immutable", "Mode0444", "DirValid"]
 
     def key_of(job, mon, ev, evs):
@@ -1070,8 +1098,21 @@ def matrix_check(work, prop, mons, checkers, frac, rule, extra_jobs=(), umasks=(
     return finish(prop, out, t0, level, cov, BASE_ASSUME)
 
 
+def c13_race_jobs():
+    """get_or_update(Replace) on a hit while another writer works on the same key: the replaced value is stored and returned all the same."""
+    jobs = []
+    k = "k"
+    for fr in fronts(100000, ("stack", "stacksh")):
+        for i, (a, b, pre) in enumerate([([U(k, "replace")], [E(k)], ()), ([U(k, "replace")], [P(k), G(k)], ()), ([U(k, "replace")], [S(k)], ()),
+                                         ([U(k, "replace")], [E(k)], ((k, "old"),)), ([U(k, "replace")], [U(k, "promote")], ())]):
+            fam = "%s:race:%s||%s%s" % (fr[0], prog_name(a), prog_name(b), ":pre" if pre else "")
+            jobs.append(conc_job("C13-race-%s-%d" % (fr[0], i), fam, fr, (a, b), bursts(Q(60, 300)), prefill=pre))
+            jobs.append(conc_job("C13-race-%s-%d-r" % (fr[0], i), fam, fr, (a, b), rnd(Q(20, 300), seed() + i), prefill=pre))
+    return jobs
+
+
 def check_C13(work):
-    return matrix_check(work, "C13", ["StackOK", "TouchMarksFirstOnly", "ROUntouched", "HandleContentOK", "DirValid"], ("none",), Q(0.35, 1.0),
+    return matrix_check(work, "C13", ["StackOK", "TouchMarksFirstOnly", "ROUntouched", "HandleContentOK", "DirValid", "ReplaceOwn"], ("none",), Q(0.35, 1.0), extra_jobs=c13_race_jobs(), rule=
                         "the matrix of Stack.tla: write side {none, plain, sharded} x 0-2 read-only levels {plain, sharded} x each level holding {nothing, A, B} x "
                         "{get, touch, ensure, get_or_update x {Accept, Promote, Replace}, set, put, set_temp_file, put_temp_file} x populate {A, B, NotFound, error}; "
                         "result / hit kind shown to the judge / post content of the write cache judged by Stack!ObservedOK (quick: seeded 35%, thorough: all)")
@@ -1137,6 +1178,15 @@ def c19_extra_jobs():
                         op("get", "ks", hash="1", sec="2")]
                 n += 1
                 jobs.append(seq_job("C19-src-%d" % n, "%s:srcmode=%o:umask=%o" % (fname, srcmode, umask), cache, prog, umask=umask))
+    # temp-file variants and populate callbacks whose file was chmod'ed by the application (read-only already, odd modes): 0444 all the same
+    for wname, wr in (("stack", plain("W")), ("stacksh", sharded("W", 2))):
+        for umask in (0o000, 0o022, 0o077):
+            for srcmode in (0o400, 0o440, 0o500, 0o640, 0o666):
+                prog = [op("set_tf", "ks", hash="1", sec="2", srcmode=srcmode), op("put_tf", "kp", hash="3", sec="4", srcmode=srcmode),
+                        op("set_tf", "ks", hash="1", sec="2", srcmode=srcmode), op("ensure", "ke", hash="1", sec="2", popmode=srcmode),
+                        op("get", "ks", hash="1", sec="2"), op("get", "ke", hash="1", sec="2")]
+                n += 1
+                jobs.append(seq_job("C19-src-%d" % n, "%s:tempfile-mode=%o:umask=%o" % (wname, srcmode, umask), stack(wr, [], "none"), prog, umask=umask))
     return jobs
 
 
@@ -1684,9 +1734,26 @@ def check_C09(work):
             if em:
                 j["emul"] = dict(em)
             jobs.append(j)
-    mons = ["ReadMarks", "FreshOnWrite", "SeqMapOK", "DirValid", "Immutable"]
+    # small caches: maintenance runs inside the histories; an entry it spares re-enters the queue UNMARKED, also when its use and the
+    # maintenance fall into the same tick of a coarse clock
+    for ename, em in emuls:
+        for g in grans:
+            for cap in (2, 3):
+                keys = [("k%d" % i, (i, i + 7)) for i in range(4)]
+                for r in range(Q(2, 10)):
+                    prog = seq_history(rng, keys, rng.choice([10, 16]), 1, False)
+                    emul = dict(em)
+                    if g:
+                        emul["gran"] = g
+                    cfg = {"roots": [root("W")], "front": "plain", "cap": cap, "seq": True}
+                    j = job("C09-maint-%s-g%d-c%d-%d" % (ename, g, cap, r), [seq_stage(part(1, plain("W", cap), with_vals(prog, 1), ALWAYS))], cfg, None,
+                            fam="%s:g%d:small-cache" % (ename, g))
+                    if emul:
+                        j["emul"] = emul
+                    jobs.append(j)
+    mons = ["ReadMarks", "FreshOnWrite", "SeqMapOK", "DirValid", "Immutable", "ReprieveUnmarks"]
     st = trace_check(work, out, jobs, mons, tag="c09")
-    st = add_pool(work, out, st, ["ReadMarks", "FreshOnWrite"], want=('seq',))
+    st = add_pool(work, out, st, ["ReadMarks", "FreshOnWrite", "ReprieveUnmarks"], want=('seq',))
     design = design_runs(work, out, Q(["MCatime_relatime_3", "MCatime_noatime_3"], ["MCatime_relatime_3", "MCatime_noatime_3", "MCatime_strict_1", "MCatime_relatime_1", "MCatime_noatime_1", "MCatime_strict_3"]))
     cov = coverage_mc(st, design, "operation sequences (seeded, and all 64 triples of {set, put, get, touch} on one key) on plain / sharded / stacked front ends, issued back to back, "
                       "under tracer emulations of the access-time policy {kernel relatime, no-atime (O_NOATIME forced on every open), strict atime} x stored timestamp "
@@ -1760,10 +1827,15 @@ def check_C20(work):
                 dict(op("touch", k, **H), grp="touch-hit"), dict(op("touch", "absent", **H), grp="touch-miss")]
         if fname == "stacksh":
             prog += [dict(op("get", "kr", **H), grp="get-ro-hit"), dict(op("touch", "kr", **H), grp="touch-ro-hit")]
+            # publishing paths whose flush / chmod / write / close fails: nothing stays open on the error path either
+            prog += [dict(op("set_tf", "n1", "v", srcdir="@TOP@/SRC", **H), grp="set_tf"), dict(op("put_tf", "n2", "v", srcdir="@TOP@/SRC", **H), grp="put_tf"),
+                     dict(op("ensure", "n3", "v", **H), grp="ensure-miss"), dict(op("ensure", "kr", "v", **H), grp="ensure-promote"),
+                     dict(op("set", "n4", "v", srcdir="@TOP@/SRC", **H), grp="set"), dict(op("put", "n4", "v", srcdir="@TOP@/SRC", **H), grp="put-existing")]
         v = seq_stage(part(1, cache, prog, NEVER))
         v["victim"] = True
         j = job("C20-fault-%s" % fname, [seq_stage(part(9, plain("SRC/none"), world, NEVER)), v], {"front": fname, "checker": "none"},
-                {"kind": "fault", "part": 1, "runs": 200, "errnos": {"open": ["ESTALE", "ENOENT"], "*": []}}, fam=fname + ":failing-open")
+                {"kind": "fault", "part": 1, "runs": 400, "errnos": {"open": ["ESTALE", "ENOENT"], "fsync": ["EIO"], "chmod": ["EIO"], "write": ["ENOSPC"],
+                                                                     "link": ["EIO"], "rename": ["EIO"], "*": []}}, fam=fname + ":failing-open")
         j["snap"] = "none"
         jobs.append(j)
     tfiles = run_tracer(work, jobs, tag="c20")
@@ -1811,14 +1883,15 @@ def check_C06(work):
     t0 = time.time()
     out = Outcome("C06")
     jobs = []
-    for fr in fronts(1, Q(("plain", "sharded"), ("plain", "sharded", "stack"))):
+    for fr in fronts(1, ("plain", "sharded", "stack")):
         fams = [
             ([S("k1"), G("k2")], [P("k2"), T("k1")]),
             ([P("k1")], [P("k1"), G("k1")]),
             ([S("k1")], [S("k1"), T("k1")]),
         ]
         if fr[0].startswith("stack"):
-            fams.append(([E("k1")], [E("k1")]))
+            # (quick: the stacked front end runs the ensure / promote races only)
+            fams = ([] if TIER == "quick" else fams) + [([E("k1")], [E("k1")]), ([E("k9"), G("k9")], [E("k9")]), ([U("k1", "promote")], [E("k1"), T("k1")])]
         for i, progs in enumerate(fams):
             fam = "%s:%s" % (fr[0], "||".join(prog_name(p) for p in progs))
             ex = {"kind": "solo", "bases": Q(2, 12), "stride": Q(2, 1), "seed": seed() + i, "runs": Q(220, 4000)}
